@@ -91,7 +91,7 @@ RemoveClauses(kind, a, b, o, r) ==
                ELSE {k \in 1..n : a.items[k].id = o.key}
       Removed(k) == b.items = RemoveAt(a.items, k) /\ (kind \in ChanKinds => b.chans = RemoveAt(a.chans, k))
   IN IF o.by = "index" /\ o.key < 0 THEN {}                   \* negative indices: not specified
-     ELSE IF Cands = {} THEN If(r.ok \/ b # a, "C15:remove_of_absent")
+     ELSE IF Cands = {} THEN If(b # a, "C15:remove_of_absent")      \* (whether it raises is not specified)
      ELSE If(~r.ok \/ ~\E k \in Cands : Removed(k), "C15:remove")
 
 \* whole-list assignment
